@@ -30,6 +30,8 @@ type Input struct {
 	Want2 string `json:"want2,omitempty"`
 	// After: a text parsed in the same process immediately before Text (pair space)
 	After *string `json:"after,omitempty"`
+	// Files: a module the library finds itself on the search path (files.go)
+	Files *fileCase `json:"files,omitempty"`
 	// sem: the statement the error must name
 	WantKeyword string `json:"want_keyword,omitempty"`
 	WantArg     string `json:"want_arg,omitempty"`
@@ -249,7 +251,7 @@ func shards(tier string) []string {
 	for k := 0; k < 16; k++ {
 		out = append(out, fmt.Sprintf("after/%d", k))
 	}
-	return append(out, "cli")
+	return append(out, "cli", "files")
 }
 
 // runAfter: the pair space of C02 for positions. After every first text, the statements of every
@@ -517,6 +519,8 @@ func run(c *core.Ctx) {
 		runSem(c)
 	case c.Shard == "cli":
 		runCLI(c)
+	case c.Shard == "files":
+		runFilesShard(c)
 	}
 }
 
@@ -538,6 +542,8 @@ func replay(tier string, raw json.RawMessage) (bool, string, string) {
 		f = checkSem(in)
 	case "cli":
 		f = checkCLI(in.Text)
+	case "files":
+		f = checkFilesCase(*in.Files)
 	}
 	if f == nil {
 		return false, "", "positions agree"
@@ -551,7 +557,7 @@ func replay(tier string, raw json.RawMessage) (bool, string, string) {
 func init() {
 	core.Register(&core.Prop{
 		ID: "C16", Variant: "plain", Shards: shards, Run: run, Replay: replay,
-		Rule:        "pos: every text of the C02 lexical spaces that the reference reader accepts with at least one statement - Location() of every statement must be file:line:col of the first character of its keyword as computed by the reference reader (1-based, columns in characters); fault: every accepted template over a 14-piece alphabet (tabs, CR LF, multi-byte runes, comments, multi-line strings) with one fault injected at every applicable token (stray }, removed ;, quoted keyword, four invalid escapes, unterminated \", ', /*) - the first error line must start with the position of the offending token / backslash / opener (a string with an invalid escape standing where no string may stand: first the backslash, then the opening quote); after: every text of the first pool of the pair space (short texts, texts that end abruptly at some column) is parsed, then every accepted text of the second pool and the faults injected into five templates, whose positions must be those they have on their own; sem: module templates re-laid-out in hostile layouts with one semantic fault (unknown substatement, missing mandatory substatement, unknown type, unknown grouping, bad range, bad length, bad enum value) at every eligible statement - every file:line:col in any error must be the start of a statement and the statement the property names must be named; cli: the goyang command fed 6 texts behind 10 leading layouts on standard input - the positions in its error messages and in its --types_debug listing are those the library reports for the identical text; states = distinct templates/texts; non-trivial = compared cases",
+		Rule:        "pos: every text of the C02 lexical spaces that the reference reader accepts with at least one statement - Location() of every statement must be file:line:col of the first character of its keyword as computed by the reference reader (1-based, columns in characters); fault: every accepted template over a 14-piece alphabet (tabs, CR LF, multi-byte runes, comments, multi-line strings) with one fault injected at every applicable token (stray }, removed ;, quoted keyword, four invalid escapes, unterminated \", ', /*) - the first error line must start with the position of the offending token / backslash / opener (a string with an invalid escape standing where no string may stand: first the backslash, then the opening quote); after: every text of the first pool of the pair space (short texts, texts that end abruptly at some column) is parsed, then every accepted text of the second pool and the faults injected into five templates, whose positions must be those they have on their own; sem: module templates re-laid-out in hostile layouts with one semantic fault (unknown substatement, missing mandatory substatement, unknown type, unknown grouping, bad range, bad length, bad enum value) at every eligible statement - every file:line:col in any error must be the start of a statement and the statement the property names must be named; files: a module the library finds itself (under a dated name, in a subdirectory below a dir/... entry, through a symbolic link; asked for by name, by path, through an import met by a processing run, through GetModule) - every statement and the error about a bad type name the path that was opened; cli: the goyang command fed 6 texts behind 10 leading layouts on standard input - the positions in its error messages and in its --types_debug listing are those the library reports for the identical text; states = distinct templates/texts; non-trivial = compared cases",
 		Assumptions: []string{"the reference reader's positions are the true positions", "for cascading lexical faults only the first reported error line is compared", "missing-closing-brace and unexpected-EOF reports are outside the claim"},
 	})
 }
